@@ -192,6 +192,23 @@ example : IsRoot exRoot ∧ HashAvoids exCfg exRoot.prev ∧ run exCfg [exRoot] 
     (∃ r ∈ exStore, connected r ∧ r.id ≠ 0) :=
   ⟨by decide, exAvoids, exStore_eq, by decide⟩
 
+/-- the same for EVERY non-root row, orphans included (`WF` speaks only of connected rows): its height and cumulative
+    work derive from the row stored before it that carries its previous hash; if there was none — the parent was
+    unknown — it has height 1 and only its own work -/
+theorem C03_derived_all (cfg : Cfg H) (g : Row H) (hg : IsRoot g) (hz : HashAvoids cfg g.prev)
+    (hist : List (Src H)) :
+    ∀ r ∈ run cfg [g] hist, r.id ≠ 0 →
+      (∃ p ∈ run cfg [g] hist, p.id < r.id ∧ p.hash = r.prev ∧ r.height = p.height + 1 ∧ r.cum = p.cum + r.work) ∨
+      ((∀ p ∈ run cfg [g] hist, p.id < r.id → p.hash ≠ r.prev) ∧ r.height = 1 ∧ r.cum = r.work) :=
+  Derived.run hg.1 hz hist (WF.init cfg g hg.1 hg.2.1 hg.2.2.1 hg.2.2.2) (List.mem_singleton.2 rfl)
+    (fun _ hr h0 => absurd ((List.mem_singleton.1 hr) ▸ hg.1) h0)
+
+/-- both disjuncts occur in the example store: row 3 derives from row 2, the orphan (row 4) has no earlier parent -/
+example : IsRoot exRoot ∧ HashAvoids exCfg exRoot.prev ∧ Derived exStore ∧
+    (∃ r ∈ exStore, r.id = 3 ∧ ∃ p ∈ exStore, p.id < r.id ∧ p.hash = r.prev) ∧
+    (∃ r ∈ exStore, r.id = 4 ∧ (∀ p ∈ exStore, p.id < r.id → p.hash ≠ r.prev) ∧ r.height = 1 ∧ r.cum = r.work) :=
+  ⟨by decide, exAvoids, by decide, by decide, by decide⟩
+
 /-! ### the SQL layer can do nothing else -/
 
 /-- the origins of one-time schema / import statements: a file under database/migrations/ (prefix test on the UTF-8
